@@ -16,7 +16,8 @@ THEOREMS = ['C08_limit_best_is_fold', 'C08_limit_best_general', 'C08_limit_best_
             'C08_serial_enforce', 'C08_enforce_total',
             'C08_value_of_spec', 'C08_value_of_no_fuel_exhaustion', 'C08_value_of_rebind_refuted',
             'C08_value_of_order_independent', 'C08_complete_frames_total', 'C08_reachable_wf',
-            'C08_finish_frames', 'C08_classical_finish', 'C08_classical_finish_history',
+            'C08_finish_frames', 'C08_finish_access_exact', 'C08_finish_serial_total',
+            'C08_classical_completion', 'C08_classical_finish', 'C08_classical_finish_history',
             'C08_classical_finish_old_refuted']
 
 def chunks(l, n):
@@ -359,6 +360,34 @@ def check_case(chk, L, tables, case, res, coq, order):
                           dict(base, clause=clause, world=w, witness=what))
 
 
+def serial_base_bad(ent):
+    if ent.get('err'):
+        return f'raised {ent["err"]}'
+    Rw = sorted(int(w) for w in ent['R'])
+    Rp = sorted([int(w), w2] for w, ws in ent['R'].items() for w2 in ws)
+    if ent['frames'] != Rw:
+        return f'frames {ent["frames"]} but the worlds of R are {Rw}'
+    if ent['worlds'] != Rw or sorted(ent['access']) != Rp:
+        return f'exported worlds {ent["worlds"]} / access {ent["access"]} but R = {Rp} on {Rw}'
+    if len({json.dumps(a) for a in ent['atoms'].values()}) != 1:
+        return f'frames do not know the same atoms: {ent["atoms"]}'
+    if any(not ent['R'][str(w)] for w in Rw):
+        return f'a world has no successor: {ent["R"]}'
+    return None
+
+
+def serial_base_clause(chk):
+    """BaseModel.finish under SerialAccess outside the classical family (no registered logic: synthetic subclass)."""
+    for ent in probe_json('probe_model.py', ['serial_base']):
+        chk.cases += 1
+        chk.count('source', 'synthetic-serial-base')
+        bad = serial_base_bad(ent)
+        if bad:
+            chk.violation('BaseModel.finish/frames-after-enforce',
+                          f'{ent["base"]}.Model with Access=SerialAccess, ops {ent["ops"]}: after finish() {bad}',
+                          dict(kind='serial_base', base=ent['base'], ops=ent['ops'], clause='serial_base'))
+
+
 def run(args) -> int:
     chk = Check(PID, args.tier, args.seed)
     chk.rule = ('one case = (logic, history of set/add calls, order seed); each case evaluates every sentence of the '
@@ -461,6 +490,7 @@ def run(args) -> int:
                 chk.violation(key, f'{c["logic"]}: results differ between iteration-order seeds 0 and {order} '
                               f'on ops {c["ops"]}', dict(kind='case', logic=c['logic'], ops=c['ops'], order=order,
                                                          clause='order', sents=c['sents'], worlds=c['worlds']))
+    serial_base_clause(chk)
     chk.checker_cmd = ('coqc gen/C08/{Logics,Obl,Status*,Cases*}.v against coq/theories/Sem/{LimitBest,Access,AccessProofs,'
                        'PyModel,PyModelProofs,Classical,ClassicalProofs}.v, Props/C08.v')
     chk.trusted += ['tools/mlib.py Reference: the independent evaluator used to classify disagreements',
@@ -475,6 +505,15 @@ def run(args) -> int:
 
 def replay(path: str) -> int:
     rep = json.load(open(path))
+    if rep.get('clause') == 'serial_base':
+        for ent in probe_json('probe_model.py', ['serial_base']):
+            if ent['base'] == rep['base'] and ent['ops'] == rep['ops']:
+                bad = serial_base_bad(ent)
+                print(f'replay: {bad}')
+                if bad:
+                    print(f'VIOLATION property={PID} replay={path}')
+                    return 1
+        return 0
     facts = {L['name']: L for L in probe_json('probe_model.py', ['facts'])}
     tf = {L['name']: L for L in probe_json('probe_facts.py')['logics']}
     L = facts[rep['logic']]
